@@ -39,6 +39,17 @@ struct FieldT
     }
 };
 
+// a setter that writes a run of raw header bytes at once (TECMP status payloads)
+template <class Obj>
+struct GroupT
+{
+    std::string name;
+    int offset{0};
+    int maxLength{0};
+    bool takesLength{false};  // false: always writes maxLength bytes
+    std::function<void(Obj&, const uint8_t*, uint8_t)> set;
+};
+
 template <class Obj>
 struct DescT
 {
@@ -47,6 +58,7 @@ struct DescT
     std::function<size_t()> actualHeaderSize;  // sizeof the library's header class / default length
     std::vector<Cell> cells;
     std::vector<FieldT<Obj>> fields;
+    std::vector<GroupT<Obj>> groups;
     std::function<Obj(const Bytes& image)> fromImage;  // object whose raw header bytes are `image` (+ optional data)
     std::function<Bytes(const Obj&)> image;            // raw header bytes
     std::function<Bytes(const Obj&)> data;             // data bytes that no setter may touch
@@ -656,6 +668,8 @@ inline DescT<TECMP::InterfacePayload> descTecmpIf()
     VF_FIELD("linkStatus", 9, 0, 8, o.setVendorDataLinkStatus(static_cast<uint8_t>(v)), o.getVendorDataLinkStatus());
     VF_FIELD("linkQuality", 10, 0, 8, o.setVendorDataLinkQuality(static_cast<uint8_t>(v)), o.getVendorDataLinkQuality());
     VF_FIELD("linkupTime", 11, 0, 16, o.setVendorDataLinkupTime(static_cast<uint16_t>(v)), o.getVendorDataLinkupTime());
+    d.groups.push_back({"setGenericData", 0, 12, false, [](Obj& o, const uint8_t* p, uint8_t) { o.setGenericData(p); }});
+    d.groups.push_back({"setBusData", 12, 12, true, [](Obj& o, const uint8_t* p, uint8_t n) { o.setBusData(p, n); }});
     d.fromImage = [](const Bytes& image) {
         Bytes b = image;
         b.resize(std::max<size_t>(b.size(), 28), 0);
